@@ -14,7 +14,7 @@ from pbt.sut import Sequence, MidiFile
 ID = "C13"
 MIN_NONTRIVIAL = 0.3
 RULE = ("Hypothesis: mido files with ticks_per_beat from {24,48,96,120,192,240,384,480,960,1000,25,7} or random 1..2000, 1-5 tracks "
-        "built as delta-time event walks (so any delta pattern occurs, incl. a 'drift' class of 100-300 sub-tick deltas): notes on "
+        "built as delta-time event walks (so any delta pattern occurs, incl. a 'drift' class of 100-300 sub-tick deltas and a 'far' class with events up to 400 beats apart, i.e. 10^5..10^6 file ticks into the track): notes on "
         "channels 0-2 x 3 pitches, well-formed per track, each at least 1.5 library ticks long, note-off encoded as note_off or "
         "note_on velocity 0; time/key signatures (only key names KeyKeyMapping lists) at least 2 library ticks apart per kind "
         "over the whole file; tempo/text meta messages and control/program changes carrying delta time. Groupings: disjoint "
@@ -37,7 +37,8 @@ MAJOR_OF = {"Am": "C", "Em": "G", "Bm": "D", "F#m": "A", "C#m": "E", "G#m": "B",
 
 @st.composite
 def _case(draw):
-    tpb = draw(st.one_of(st.sampled_from([24, 48, 96, 120, 192, 240, 384, 480, 960, 1000, 25, 7]), st.integers(1, 2000)))
+    tpb = draw(st.one_of(st.sampled_from([24, 48, 96, 120, 192, 240, 384, 480, 960, 1000, 25, 7]), st.integers(1, 2000),
+                         st.sampled_from([1024, 2048, 15360, 99, 7, 1000, 3, 17])))
     minlen = -(-3 * tpb // 48)            # ceil(1.5 library ticks) in file ticks
     sigspace = -(-2 * tpb // 24) + 1
     ntracks = draw(st.integers(1, 5))
@@ -45,9 +46,11 @@ def _case(draw):
     tracks = []
     for _ in range(ntracks):
         drift = draw(st.integers(0, 5)) == 0
-        n = draw(st.integers(100, 300)) if drift else draw(st.integers(0, 30))
+        far = not drift and draw(st.integers(0, 4)) == 0     # few events, hundreds of bars into the track
+        n = draw(st.integers(100, 300)) if drift else draw(st.integers(0, 12 if far else 30))
         small = max(1, tpb // 48)
         delta_s = (st.sampled_from([small, small, max(1, tpb // 24), 0, 1, small + 1]) if drift else
+                   st.one_of(st.integers(0, 2 * tpb), st.integers(50 * tpb, 400 * tpb), st.integers(0, 400 * tpb)) if far else
                    st.one_of(st.just(0), st.integers(0, 3), st.sampled_from([small, max(1, tpb // 24), tpb // 2, tpb]),
                              st.integers(0, 2 * tpb)))
         t = 0
